@@ -61,6 +61,10 @@ TECH_SUFFIX = {
  "C04": "; part of the runs use the full stack (real lora-phy on a simulated chip: panics and hangs of the drivers under MAC-driven sequences and transport faults), small radio buffers and a one-entry downlink queue",
  "C06": "; outages (several consecutive failing radio calls) and, in full-stack runs, SPI / IRQ transport faults inside the real lora-phy calls",
 }
+NOTE_SUFFIX = {
+ "C20": " One genuine violation is recorded as a known finding (DESIGN 13.2-3): a session stored between two events of an nb_device uplink procedure restores to a device that reuses the FCntUp of the frame already sent; that crash-point kind is switched off by its avoid tag and demonstrated by known/C20-known-nb-mid-procedure-power-cut-reuses-fcnt.json.",
+ "C14": " Two genuine violations are recorded as known findings (DESIGN 13.2-1, 13.2-2).",
+}
 TEXT_SUFFIX = {
  "C09": " In the full-stack configuration (about one run in six) the same monitor is applied one level down: what the real driver wrote into the chip model at the moment of SetTx / mode TX (frequency, SF, bandwidth, coding rate, FIFO content, PA selection decoded per datasheet) must agree with the TxConfig and must not select more power than it asks for.",
  "C10": " In the full-stack configuration (about one run in five) what the real driver wrote into the chip model at every reception start (frequency, SF, bandwidth, coding rate) must agree with the RxConfig of the window / of the Class C listening in force, and an accepted configuration must actually lead to a listening chip.",
@@ -74,6 +78,8 @@ def main():
             level, tech, text, note, ref = CHECKS[pid]
             tech += TECH_SUFFIX.get(pid, "")
             text += TEXT_SUFFIX.get(pid, "")
+            if NOTE_SUFFIX.get(pid, "").strip() and NOTE_SUFFIX[pid].strip() not in note:
+                note += NOTE_SUFFIX[pid]
             checks.append({
                 "property_id": pid,
                 "quick_cmd": f"./check {pid} quick",
